@@ -246,6 +246,7 @@ MultiplyRes(a, b) ==
   ELSE IF a.ntt # DefaultNtt \/ b.ntt # DefaultNtt THEN RRefuse("representation not accepted by multiply")
   ELSE IF a.key # b.key THEN RAny("ciphertexts under different secret keys")
   ELSE IF a.size + b.size - 1 > 16 THEN RAny("result size above the library limit")
+  ELSE IF IsCkks /\ (a.scl < 1 \/ b.scl < 1) THEN RAny("scales below 2 are outside the property's range")
   ELSE IF IsCkks /\ ScaleOver(a.scl + b.scl, a.lvl) THEN RRefuse("scale out of bounds")
   ELSE IF IsCkks /\ ~ScaleFits(a.sce + b.sce, a.lvl) THEN RAny("scale near the bound")
   ELSE ROk([a EXCEPT !.size = a.size + b.size - 1, !.pt = VMul(a.pt, b.pt),
@@ -332,6 +333,7 @@ MulPlainRes(a, p) ==
   ELSE IF BadCt(a) \/ ~p.valid THEN RRefuse("invalid operand")
   ELSE IF IsCkks /\ (~a.ntt \/ ~p.ntt \/ a.lvl # p.lvl) THEN RAny("plaintext form/level outside the statement")
   ELSE IF (~IsCkks) /\ p.ntt /\ p.lvl # a.lvl THEN RAny("NTT plaintext of another level")
+  ELSE IF IsCkks /\ (a.scl < 1 \/ p.scl < 1) THEN RAny("scales below 2 are outside the property's range")
   ELSE IF IsCkks /\ ScaleOver(a.scl + p.scl, a.lvl) THEN RRefuse("scale out of bounds")
   ELSE IF IsCkks /\ ~ScaleFits(a.sce + p.sce, a.lvl) THEN RAny("scale near the bound")
   ELSE ROk([a EXCEPT !.pt = VMul(a.pt, p.pt),
